@@ -177,7 +177,7 @@ func (s *Solver) Text(t *Term) string {
 			panic("solver: define outside path level")
 		}
 		s.nDef++
-		name := fmt.Sprintf("d!%d", s.nDef)
+		name := fmt.Sprintf("dd$%d", s.nDef)
 		s.cmd1(fmt.Sprintf("(define-fun %s () %s %s)", name, t.sort, str))
 		str = name
 	}
